@@ -110,8 +110,23 @@ def run(ctx):
         raise EngineError("FEATSPAN: construction of RawWordEntry not found in parse_csv")
     # chase: feature <- (Try::branch Continue.0) <- from_utf8(slice) <- index(B, RangeTo{end})
     chain = []
+    strips = []          # (name, constant pattern) of content-based trimming calls on the way
     cur = feat_op
     idx_call = None
+
+    def note_strip(t):
+        nm = sorted(_names(t))[0]
+        if nm in ("strip_suffix", "trim_end_matches", "trim_matches", "strip_prefix", "trim_start_matches"):
+            pat = None
+            if len(t["args"]) > 1:
+                po = fa.origin(t["args"][1])
+                if po[0] == "const":
+                    k = po[1]
+                    pat = k.get("str") if "str" in k else bytes(k.get("bytes") or []).decode("latin1") \
+                        if k.get("bytes") else chr(k["int"]) if "int" in k and k.get("ty") == "char" else None
+            strips.append((nm, pat))
+        elif nm in ("trim_end", "trim", "trim_ascii_end", "trim_ascii", "trim_start"):
+            strips.append((nm, "<whitespace>"))
     for _ in range(24):
         o = fa.origin(cur)
         if o[0] == "place":
@@ -119,6 +134,7 @@ def run(ctx):
             ap = o[1]
             if ap.root[0] == "call":
                 t = fa.term(ap.root[1])
+                note_strip(t)
                 chain.append(sorted(_names(t))[0])
                 if not t["args"]:
                     break
@@ -134,6 +150,7 @@ def run(ctx):
         if o[0] == "call":
             t = o[2]
             nm = _names(t)
+            note_strip(t)
             chain.append(sorted(nm)[0])
             if nm & {"index", "get", "get_unchecked"} and len(t["args"]) == 2:
                 idx_call = (o[1], t)
@@ -143,7 +160,27 @@ def run(ctx):
             cur = t["args"][0]
             continue
         break
-    bad_split = [c for c in chain if c in SPLITS]
+    # The record terminator is removed arithmetically (the last consumed count includes exactly
+    # one terminator byte, `\n` or `\r`: csv-core ends a CRLF record at the `\r`). Removing it by
+    # looking at the bytes (`strip_suffix("\n")`, `trim_end..`) leaves the `\r` of CRLF rows in
+    # the feature, or eats characters that belong to it.
+    # A content-based cut is wrong when it knows only `\n` (CRLF rows keep their `\r`) or when it
+    # trims whitespace in general (a feature may end in a space). A cut that removes one `\r` or
+    # `\n` is a correct alternative and is accepted.
+    lf_only = [s for s in strips if s[1] in ("\n",)]
+    white = [s for s in strips if s[1] == "<whitespace>"]
+    handles_cr = any(s[1] is not None and "\r" in s[1] for s in strips) or \
+        any(s[1] is None for s in strips)      # non-constant pattern (closure / char set): undecided, accept
+    bad_term = white or (lf_only and not handles_cr)
+    ctx.ob("FEATSPAN", "terminator-cut-handles-CR-and-LF", not bad_term, loc,
+           "the record terminator is removed by count, or by a cut that knows both `\\r` and `\\n`"
+           if not bad_term else
+           "the end of the feature is found by %s: %s" % (
+               ", ".join("%s(%r)" % s for s in strips),
+               "whitespace that belongs to the feature is removed" if white else
+               "a CR-terminated (CRLF) row keeps its `\\r` because csv-core ends the record at the `\\r`"))
+    by_content = [s[0] for s in strips]
+    bad_split = [c for c in chain if c in SPLITS and c not in by_content]
     if bad_split:
         ctx.ob("FEATSPAN", "feature-cut-at-reader-positions", False, loc,
                "the feature string is re-derived by text operations (%s) instead of being cut at "
